@@ -139,7 +139,7 @@ def judge(case, out, answers):
             return {"agree": False, "holds": False, "nontrivial": True, "tags": tags + ["selector:fails"],
                     "diff": "get_algorithm(%s, %s) fails with %s although the class the member names accepts these parameters"
                             % (algos.FACTORY_NAMES[case["config"][1]], case["config"][2:], fac["factory_err"])}
-        if fac["built"] != mterm:
+        if fac["built"] is not None and fac["built"] != mterm:
             diff.append("selector builds: model %s impl %s (%s)" % (mterm, fac["built"], fac["class"]))
     mrel, mref_inc, mref_comp, exact_ref = answers[0]
     if out["relevant"] != bool(mrel):
